@@ -51,11 +51,50 @@ var narrowReviewed = map[string]string{
 	"app/router.packRespTCP|m.Pack(": "n <= 65535 is the size argument of Msg.Pack: truncation to the size limit is C09's subject (R09a/R09b check the guard before every element)",
 }
 
+// decodeRoots: the functions that turn attacker bytes into messages; R01f under C01 covers their closure (an
+// over-long name or a lying length must be rejected there, not wrapped). The same rule runs over the encoder for
+// C02 and over the upstream transports for C05 (query-id exhaustion).
+var decodeRoots = []struct{ pkg, fn string }{
+	{"internal/dnsmsg", "UnpackMsg"}, {"internal/dnsutils", "ReadMsgFromTCP"}, {"internal/dnsutils", "ReadMsgFromUDP"},
+	{"app/router", "unpackCacheMsg"}, {"app/router", "(*httpHandler).readReqMsg"}, {"app/router", "(*fasthttpHandler).readReqMsg"},
+}
+
 func r01f(c *core.Ctx) {
+	be := engineFor(c)
+	var roots []*ssa.Function
+	for _, r := range decodeRoots {
+		if f := c.Anchor(r.pkg, r.fn); f != nil {
+			roots = append(roots, f)
+		}
+	}
+	set := be.g.closure(roots)
+	narrowing(c, "decode closure", func(fn *ssa.Function) bool { return set[fn] })
+}
+
+// r01fCodec: the same obligation over the whole codec package (encoder side: RDLENGTH, compression pointers).
+func r01fCodec(c *core.Ctx) {
+	narrowing(c, "package internal/dnsmsg", func(fn *ssa.Function) bool {
+		return fn.Pkg != nil && fn.Pkg.Pkg.Path() == core.PkgPath("internal/dnsmsg") || (fn.Parent() != nil && fn.Parent().Pkg != nil && fn.Parent().Pkg.Pkg.Path() == core.PkgPath("internal/dnsmsg"))
+	})
+}
+
+// r01fTransport: …and over the upstream transports (query ids, length prefixes).
+func r01fTransport(c *core.Ctx) {
+	narrowing(c, "package internal/upstream/transport", func(fn *ssa.Function) bool {
+		for f := fn; f != nil; f = f.Parent() {
+			if f.Pkg != nil {
+				return f.Pkg.Pkg.Path() == core.PkgPath(tpkg)
+			}
+		}
+		return false
+	})
+}
+
+func narrowing(c *core.Ctx, scopeName string, inScope func(fn *ssa.Function) bool) {
 	be := engineFor(c)
 	n, proved := 0, 0
 	for _, fn := range be.scopeFns {
-		if !be.netSet[fn] {
+		if !be.netSet[fn] || !inScope(fn) {
 			continue
 		}
 		name := core.FuncName(fn)
@@ -130,7 +169,7 @@ func r01f(c *core.Ctx) {
 			c.Unknown(key, cv.Pos(), fn, need, fmt.Sprintf("lower bound proved=%v upper bound proved=%v: %s", okLo, okHi, factList(p, b, x)))
 		})
 	}
-	c.Notes = append(c.Notes, fmt.Sprintf("R01f: %d narrowing integer conversions in the decode closure, %d proved in range by the prover/interval evaluator", n, proved))
+	c.Notes = append(c.Notes, fmt.Sprintf("R01f: %d narrowing integer conversions in the %s, %d proved in range by the prover/interval evaluator", n, scopeName, proved))
 }
 
 // scannerLabelLen: the operand is len(scanner.Label()) inside the body of a `for scanner.Scan()` loop: Scan's summary
